@@ -51,6 +51,15 @@ RULE = (
     "names what was left and in which situation (race loser cancelled / request cancelled / ConnectToPeer write "
     "failed / normal completion); a connection left by a cancelled request gets the suffix announced-before-cancel "
     "when its PeerInitializedEvent had been emitted no later than the instant the cancelled request finished. "
+    "A peer may advertise a port no TCP connect can be made to (uint32 on the wire: 65536, 70000, 2**32-1, or 0 "
+    "with an address): the direct attempt then fails at once and everything else holds unchanged (success iff the "
+    "indirect path works, PeerConnectionError and no other exception type otherwise, nothing left; reverse role: "
+    "CannotConnect). Role 'multi' = 2..3 create_peer_connection calls in flight at once (different users or the same "
+    "user twice; started in the same instant or so that a server message for one coincides with the address reply "
+    "of another) with the server's messages of one instant delivered in separate segments, glued in ONE segment, or "
+    "glued in reverse order: each request is judged by the same outcome table, must return or raise within the "
+    "documented timeouts (10 s + 60 s + 10 s slack, else request-never-finished), no two requests get the same "
+    "connection, registry == the returned connections, no waiter / socket / task left. "
     "Reverse role: the peer observed PeerPierceFirewall(ticket) "
     "xor the server observed CannotConnect.Request(ticket, peer), success leaves exactly that initialised usable "
     "connection, failure leaves nothing; no connect task remains. Non-trivial = the other attempt was still pending "
@@ -63,7 +72,8 @@ ASSUMPTIONS = [
     "number of loop iterations",
     "PEER_CONNECT_TIMEOUT = 10 s and PEER_INDIRECT_CONNECT_TIMEOUT = 60 s are pinned in the model (slow successes "
     "are generated up to 9.5 s / 59 s)",
-    "one request per case; the scripted peer gives one indirect outcome (pierce, CannotConnect, silence) or, kind "
+    "roles 'request' and 'reverse' run one request per case, role 'multi' 2..3 concurrent ones (no cancellation, "
+    "requests for the same user share that user's peer behaviour); the scripted peer gives one indirect outcome (pierce, CannotConnect, silence) or, kind "
     "'both', a pierce and a CannotConnect relay for the same ticket: the earlier one decides the indirect attempt, "
     "within 5 ms either resolution is accepted but nothing may be left behind",
     "when the ConnectToPeer write to the server fails in race mode the caller passes ip/port (the failed write "
@@ -85,9 +95,10 @@ KEEPALIVE_S = 25.0
 HARD_LIMIT_S = 200.0
 MAX_HOPS = 16
 
-DIRECT = ['accept', 'refuse', 'hang', 'initfail', 'noaddr']
+DIRECT = ['accept', 'refuse', 'hang', 'initfail', 'noaddr', 'badport']
+BAD_PORTS = [65536, 70000, 2 ** 32 - 1, 0]    # advertised ports no TCP connect can be made to (uint32 on the wire)
 INDIRECT = ['pierce', 'cannot', 'silent', 'sendfail', 'both']
-REV_DIRECT = ['accept', 'refuse', 'hang', 'initfail']
+REV_DIRECT = ['accept', 'refuse', 'hang', 'initfail', 'badport']
 PORTS = ['clear', 'obf', 'both']
 REV_PORTS = ['clear', 'obf', 'both', 'none']
 TYPES = ['P', 'D', 'F']
@@ -114,10 +125,58 @@ def _pick(v, domain, default):
     return v if isinstance(v, str) and v in domain else default
 
 
+def _bad_port(v):
+    """Port advertised by a 'badport' peer: 0 or a uint32 above 65535 (clamped into that domain)."""
+    v = _int(v, 0, 2 ** 32 - 1, 70000)
+    return v if (v == 0 or v > 65535) else 65536
+
+
+def _advertised(c):
+    """-> (clear port, obfuscated port) the server hands out for the peer of a request / reverse case"""
+    if c['direct']['kind'] == 'badport':
+        n = c['direct']['port']
+        return (n if c['ports'] in ('clear', 'both') else 0), (n if c['ports'] in ('obf', 'both') else 0)
+    return (CLEAR_PORT if c['ports'] in ('clear', 'both') else 0), (OBF_PORT if c['ports'] in ('obf', 'both') else 0)
+
+
+MULTI_USERS = ['alice', 'bob', 'carol']
+MULTI_DIRECT = ['accept', 'refuse', 'hang', 'noaddr', 'badport']
+MULTI_INDIRECT = ['pierce', 'cannot', 'silent']
+
+
+def _sanitise_multi(case):
+    """2..3 concurrent requests; requests for the same user share that user's (first given) peer behaviour."""
+    reqs = []
+    behaviour = {}
+    raw = case.get('requests')
+    for r in (raw if isinstance(raw, list) else [])[:3]:
+        if not isinstance(r, dict):
+            continue
+        user = _int(r.get('user', 0), 0, len(MULTI_USERS) - 1, 0)
+        d = r.get('direct') if isinstance(r.get('direct'), dict) else {}
+        i = r.get('indirect') if isinstance(r.get('indirect'), dict) else {}
+        beh = behaviour.setdefault(user, {
+            'direct': {'kind': _pick(d.get('kind'), MULTI_DIRECT, 'accept'), 'ms': _int(d.get('ms', 2), 1, 9500, 2),
+                       'port': _bad_port(d.get('port'))},
+            'indirect': {'kind': _pick(i.get('kind'), MULTI_INDIRECT, 'pierce'),
+                         'ms': _int(i.get('ms', 2), 1, 59000, 2), 'obf': bool(i.get('obf')), 'cc_ms': 2,
+                         'glue': False}})
+        reqs.append({'user': user, 'typ': _pick(r.get('typ'), ('P', 'D'), 'P'),
+                     'start_ms': _int(r.get('start_ms', 0), 0, 5000, 0),
+                     'direct': beh['direct'], 'indirect': beh['indirect']})
+    if len(reqs) < 2:
+        return None
+    return {'role': 'multi', 'mode': _pick(case.get('mode'), ('fallback', 'race'), 'fallback'), 'requests': reqs,
+            'glue': bool(case.get('glue')), 'reverse_replies': bool(case.get('reverse_replies')),
+            'prefer_obf': False, 'ev_hops': _int(case.get('ev_hops', 0), 0, 3, 0)}
+
+
 def _sanitise(case):
     if not isinstance(case, dict):
         return None
-    role = _pick(case.get('role'), ('request', 'reverse'), 'request')
+    role = _pick(case.get('role'), ('request', 'reverse', 'multi'), 'request')
+    if role == 'multi':
+        return _sanitise_multi(case)
     d = case.get('direct') if isinstance(case.get('direct'), dict) else {}
     i = case.get('indirect') if isinstance(case.get('indirect'), dict) else {}
     c = {
@@ -129,7 +188,10 @@ def _sanitise(case):
     }
     if role == 'reverse':
         c['ports'] = _pick(case.get('ports'), REV_PORTS, 'clear')
-        c['direct'] = {'kind': _pick(d.get('kind'), REV_DIRECT, 'accept'), 'ms': _int(d.get('ms', 2), 1, 9500, 2)}
+        c['direct'] = {'kind': _pick(d.get('kind'), REV_DIRECT, 'accept'), 'ms': _int(d.get('ms', 2), 1, 9500, 2),
+                       'port': _bad_port(d.get('port'))}
+        if c['direct']['kind'] == 'badport' and c['ports'] == 'none':
+            c['ports'] = 'clear'
         c['mode'] = _pick(case.get('mode'), ('fallback', 'race'), 'race')
         pre = []
         raw = case.get('pre')
@@ -144,7 +206,11 @@ def _sanitise(case):
         return c
     c['mode'] = _pick(case.get('mode'), ('fallback', 'race'), 'fallback')
     c['ports'] = _pick(case.get('ports'), PORTS, 'clear')
-    c['direct'] = {'kind': _pick(d.get('kind'), DIRECT, 'accept'), 'ms': _int(d.get('ms', 2), 1, 9500, 2)}
+    c['direct'] = {'kind': _pick(d.get('kind'), DIRECT, 'accept'), 'ms': _int(d.get('ms', 2), 1, 9500, 2),
+                   'port': _bad_port(d.get('port'))}
+    if c['direct']['kind'] == 'badport':
+        # GetPeerAddress carries the obfuscated port as uint16: only the clear port (uint32) can be out of range
+        c['ports'] = 'clear'
     c['indirect'] = {'kind': _pick(i.get('kind'), INDIRECT, 'pierce'), 'ms': _int(i.get('ms', 2), 1, 59000, 2),
                      'obf': bool(i.get('obf')),
                      # kind 'both': the peer pierces after ms AND the server relays CannotConnect after cc_ms
@@ -192,6 +258,8 @@ def _model_variant(c, pierce_wins):
         t_d = look + d_ms
     elif dk == 'hang':
         t_d = look + CONNECT_TIMEOUT_MS
+    elif dk == 'badport':
+        t_d = look          # no connect can even be attempted (port 0 given by the caller: refused at once)
     else:
         t_d = 2.0
     if ik == 'both':
@@ -350,15 +418,18 @@ def _make_peer_class():
     return Peer
 
 
-def _probe_messages(typ):
+def _probe_messages(typ, salt=0):
+    """-> (probe we send, probe the peer sends, keepalive, message glued to a pierce); ``salt`` makes the two probes
+    of one connection distinguishable from those of another connection of the same peer"""
     M = simworld.M()
+    k = 16 * salt
     if typ == 'P':
-        return M.PeerPlaceInQueueReply.Request('c11-out', 7), M.PeerPlaceInQueueReply.Request('c11-in', 9), \
+        return M.PeerPlaceInQueueReply.Request('c11-out', 7 + k), M.PeerPlaceInQueueReply.Request('c11-in', 9 + k), \
             M.PeerPlaceInQueueReply.Request('c11-keepalive', 1), M.PeerPlaceInQueueReply.Request('c11-glued', 3)
     if typ == 'D':
-        return M.DistributedBranchLevel.Request(7), M.DistributedBranchLevel.Request(9), \
+        return M.DistributedBranchLevel.Request(7 + k), M.DistributedBranchLevel.Request(9 + k), \
             M.DistributedBranchLevel.Request(1), M.DistributedBranchLevel.Request(3)
-    return struct.pack('<I', 0x0C110007), struct.pack('<I', 0x0C110009), None, None
+    return struct.pack('<I', 0x0C110007 + k), struct.pack('<I', 0x0C110009 + k), None, None
 
 
 class _Observer:
@@ -424,9 +495,9 @@ def _client_transport(conn):
     return None if w is None else w.transport
 
 
-async def _check_usable(world, loop, obs, conn, peer, typ, received, t_mark):
+async def _check_usable(world, loop, obs, conn, peer, typ, received, t_mark, salt=0):
     """Probe both directions of ``conn``; returns the scripted peer's link carrying it (or None)."""
-    out_msg, in_msg = _probe_messages(typ)[:2]
+    out_msg, in_msg = _probe_messages(typ, salt)[:2]
     try:
         await asyncio.wait_for(conn.send_message(out_msg), 5.0)
     except Exception as exc:  # noqa: BLE001 - any failure makes the connection unusable
@@ -475,7 +546,7 @@ def _keepalive(peer):
         link.send_msg(_probe_messages(link.typ)[2])
 
 
-def _check_connection_fields(obs, conn, typ, network):
+def _check_connection_fields(obs, conn, typ, network, username=PEER_NAME):
     from aioslsk.network.connection import ConnectionState, PeerConnectionState
     if conn not in network.peer_connections:
         obs.problems.append(('returned-connection-not-registered', repr(conn)))
@@ -484,7 +555,7 @@ def _check_connection_fields(obs, conn, typ, network):
     want = PeerConnectionState.NEGOTIATING_TRANSFER if typ == 'F' else PeerConnectionState.ESTABLISHED
     if conn.connection_state != want:
         obs.problems.append((f'returned-connection-not-initialised:{conn.connection_state.name}', repr(conn)))
-    if conn.username != PEER_NAME:
+    if conn.username != username:
         obs.problems.append(('returned-connection-wrong-username', repr(conn)))
     if conn.connection_type != typ:
         obs.problems.append(('returned-connection-wrong-type', repr(conn)))
@@ -579,10 +650,9 @@ def _run_request(c) -> CaseResult:
         server_link = world.net.links[0]
         Peer = _make_peer_class()
         listener_outcome = {'accept': 'accept', 'initfail': 'accept', 'refuse': 'refuse', 'hang': 'hang',
-                            'noaddr': 'refuse'}[dk]
-        peer = Peer(world, PEER_NAME, PEER_IP,
-                    port=CLEAR_PORT if c['ports'] in ('clear', 'both') else 0,
-                    obf_port=OBF_PORT if c['ports'] in ('obf', 'both') else 0,
+                            'noaddr': 'refuse', 'badport': 'refuse'}[dk]
+        adv_port, adv_obf = _advertised(c)
+        peer = Peer(world, PEER_NAME, PEER_IP, port=adv_port, obf_port=adv_obf,
                     direct=listener_outcome, direct_delay=c['direct']['ms'] / 1000.0,
                     indirect={'pierce': 'pierce', 'cannot': 'cannot', 'silent': 'silent', 'sendfail': 'silent',
                               'both': 'both'}[ik],
@@ -595,6 +665,16 @@ def _run_request(c) -> CaseResult:
         world.peers[PEER_NAME] = peer
         if dk == 'noaddr':
             world.server.users[PEER_NAME]['online'] = False
+        if dk == 'badport':
+            # the server hands out exactly the advertised numbers (also "an address but no port at all")
+            def address_reply(server, idx, msg):
+                if msg.username != PEER_NAME:
+                    return False
+                server.send(M.GetPeerAddress.Response(PEER_NAME, PEER_IP, adv_port,
+                                                      obfuscated_port_amount=1 if adv_obf else 0,
+                                                      obfuscated_port=adv_obf), idx)
+                return True
+            world.server.handlers[M.GetPeerAddress.Request] = address_reply
         if ik == 'sendfail':
             tr = network.server_connection._writer.transport
             plain_write = tr.write
@@ -614,6 +694,8 @@ def _run_request(c) -> CaseResult:
         kwargs = {}
         if c['addr'] == 'given':
             kwargs = {'ip': PEER_IP, 'port': exp_port, 'obfuscate': exp_obf}
+            if dk == 'badport':
+                kwargs['port'] = c['direct']['port']
         t0 = loop.time()
         task = asyncio.ensure_future(network.create_peer_connection(PEER_NAME, typ, **kwargs))
         if c['cancel_ms'] is not None:
@@ -748,7 +830,7 @@ def _run_request(c) -> CaseResult:
         res.violate(f'C11/{suffix}', f'{detail} | mode={c["mode"]} direct={dk} indirect={ik} typ={typ}')
 
     # port selection (documented by select_port): every TCP connect goes to the expected port
-    if c['addr'] == 'lookup':
+    if c['addr'] == 'lookup' and dk != 'badport':
         for t, port, outcome in obs.facts.get('connects', []):
             if port != exp_port:
                 res.violate(f'C11/wrong-port-selected:{c["ports"]}:prefer_obf={c["prefer_obf"]}',
@@ -872,15 +954,16 @@ def _run_reverse(c) -> CaseResult:
         obs.residue += _snapshot(world, network, 'before-request', None, None, server_link, False, owned=pre_open)
         n_pierce_links = len(peer.links)
 
-        peer.set_direct({'accept': 'accept', 'initfail': 'accept', 'refuse': 'refuse', 'hang': 'hang'}[dk],
-                        c['direct']['ms'] / 1000.0)
+        peer.set_direct({'accept': 'accept', 'initfail': 'accept', 'refuse': 'refuse', 'hang': 'hang',
+                         'badport': 'refuse'}[dk], c['direct']['ms'] / 1000.0)
         peer.init_fail = dk == 'initfail'
         _install_connect_hops(PEER_IP, c['d_hops'])
         n_connects = len(world.net.opened)
         t0 = loop.time()
+        adv_port, adv_obf = _advertised(c)      # 'badport': the relayed address carries ports nobody can connect to
         world.server.send(M.ConnectToPeer.Response(
-            username=PEER_NAME, typ=typ, ip=PEER_IP, port=peer.port, ticket=ticket, privileged=False,
-            obfuscated_port_amount=1 if peer.obf_port else 0, obfuscated_port=peer.obf_port))
+            username=PEER_NAME, typ=typ, ip=PEER_IP, port=adv_port, ticket=ticket, privileged=False,
+            obfuscated_port_amount=1 if adv_obf else 0, obfuscated_port=adv_obf))
         await asyncio.sleep((t_done + 200.0) / 1000.0)
         conns = [cn for cn in network.peer_connections if not any(cn is o for o in pre_open)]
         returned = conns[0] if (len(conns) == 1 and dk == 'accept' and reachable) else None
@@ -923,7 +1006,8 @@ def _run_reverse(c) -> CaseResult:
 
     pierces, cannot = obs.facts.get('pierces', []), obs.facts.get('cannot', [])
     ctx = f'reverse:{dk if reachable else "no-port"}'
-    info = f'typ={typ} ports={c["ports"]} prefer_obf={c["prefer_obf"]} pierces={pierces} cannot={cannot} ' \
+    info = f'typ={typ} ports={c["ports"]} advertised={_advertised(c)} prefer_obf={c["prefer_obf"]} ' \
+           f'pierces={pierces} cannot={cannot} ' \
            f'connects={obs.facts.get("connects")} registry={obs.facts.get("registry_after")}'
     pre_facts = obs.facts.get('pre_open', [])
     info += f' history={c["pre"]} open-before={pre_facts}'
@@ -957,7 +1041,7 @@ def _run_reverse(c) -> CaseResult:
             res.violate('C11/reverse:wrong-cannot-connect-report', info)
     if obs.facts.get('tasks') or obs.facts.get('tasks_final'):
         res.violate(f'C11/residue:connect-task:{ctx}', info)
-    if c['ports'] != 'none':
+    if c['ports'] != 'none' and dk != 'badport':
         for t, port, outcome in obs.facts.get('connects', []):
             if port != exp_port:
                 res.violate(f'C11/wrong-port-selected:{c["ports"]}:prefer_obf={c["prefer_obf"]}',
@@ -986,12 +1070,216 @@ def _run_reverse(c) -> CaseResult:
     return res
 
 
+# ---------------------------------------------------------------------------
+# role 'multi': several requests in flight at once
+
+def _glue_server_replies(loop, ep, reverse):
+    """Everything the simulated server sends to us within one loop iteration leaves in ONE TCP segment (so that our
+    reader handles the messages back-to-back in one wake-up), optionally in reverse message order."""
+    pending = []
+
+    def flush():
+        msgs = list(reversed(pending)) if reverse else list(pending)
+        pending.clear()
+        if not (ep.closed or ep.got_reset):
+            ep.link.write_from(ep.index, b''.join(msgs))
+
+    def send_now(data):
+        if ep.closed or ep.got_reset:
+            return
+        pending.append(bytes(data))
+        if len(pending) == 1:
+            loop.call_soon(flush)
+    ep._send_now = send_now
+
+
+def _run_multi(c) -> CaseResult:
+    res = CaseResult()
+    from aioslsk.exceptions import PeerConnectionError
+    from aioslsk.network.connection import ConnectionState, PeerConnection
+    M = simworld.M()
+    race = c['mode'] == 'race'
+    reqs = c['requests']
+    models = []
+    for r in reqs:
+        rc = {'addr': 'lookup', 'mode': c['mode'], 'cancel_ms': None, 'direct': r['direct'], 'indirect': r['indirect']}
+        models.append(_model(rc))
+    obs = _Observer()
+    outcomes = [None] * len(reqs)
+    done_ms = [None] * len(reqs)
+    per_req_problems = [[] for _ in reqs]
+
+    async def main(world: simworld.World):
+        loop = world.loop
+        settings, network, received, inits, states, keep = _setup_network(world, c, race)
+        await network.initialize()
+        network.server_connection.start_reader_task()
+        server_link = world.net.links[0]
+        Peer = _make_peer_class()
+        peers = {}
+        bad = {}
+        for r in reqs:
+            u = r['user']
+            if u in peers:
+                continue
+            dk = r['direct']['kind']
+            name, ip = MULTI_USERS[u], '20.0.1.%d' % (u + 1)
+            port = r['direct']['port'] if dk == 'badport' else CLEAR_PORT
+            peer = Peer(world, name, ip, port=port, obf_port=0,
+                        direct={'accept': 'accept', 'refuse': 'refuse', 'hang': 'hang', 'noaddr': 'refuse',
+                                'badport': 'refuse'}[dk],
+                        direct_delay=r['direct']['ms'] / 1000.0, indirect=r['indirect']['kind'],
+                        indirect_delay=r['indirect']['ms'] / 1000.0)
+            peer.pierce_obf = r['indirect']['obf']
+            world.peers[name] = peer
+            peers[u] = peer
+            if dk == 'noaddr':
+                world.server.users[name]['online'] = False
+            if dk == 'badport':
+                bad[name] = (ip, port)
+        if bad:
+            def address_reply(server, idx, msg):
+                if msg.username not in bad:
+                    return False
+                ip, port = bad[msg.username]
+                server.send(M.GetPeerAddress.Response(msg.username, ip, port, obfuscated_port_amount=0,
+                                                      obfuscated_port=0), idx)
+                return True
+            world.server.handlers[M.GetPeerAddress.Request] = address_reply
+        if c['glue']:
+            _glue_server_replies(loop, world.server.sessions[-1], c['reverse_replies'])
+        await asyncio.sleep(0.01)
+        t0 = loop.time()
+
+        async def one(k, r):
+            delay = t0 + r['start_ms'] / 1000.0 - loop.time()
+            if delay > 0:
+                await asyncio.sleep(delay)
+            return await network.create_peer_connection(MULTI_USERS[r['user']], r['typ'])
+        async def keepalive_job():
+            while True:
+                await asyncio.sleep(KEEPALIVE_S)
+                for peer in peers.values():
+                    _keepalive(peer)
+        keepalive_task = asyncio.ensure_future(keepalive_job())     # from the start: a request may take 70 s
+        tasks = [asyncio.ensure_future(one(k, r)) for k, r in enumerate(reqs)]
+        for k, task in enumerate(tasks):
+            task.add_done_callback(lambda t, k=k: done_ms.__setitem__(k, (loop.time() - t0) * 1000.0))
+        # every request returns or raises within a bounded time: documented timeouts of both attempts + slack
+        bound = max(r['start_ms'] for r in reqs) / 1000.0 + \
+            (CONNECT_TIMEOUT_MS + INDIRECT_TIMEOUT_MS) / 1000.0 + 10.0
+        await asyncio.wait(tasks, timeout=bound)
+        returned = []
+        for k, task in enumerate(tasks):
+            if not task.done():
+                outcomes[k] = ('never',)
+                task.cancel()
+            elif task.cancelled():
+                outcomes[k] = ('cancelled',)
+            elif task.exception() is not None:
+                exc = task.exception()
+                outcomes[k] = ('raised', type(exc).__name__, repr(exc)[:200], isinstance(exc, PeerConnectionError))
+            elif isinstance(task.result(), PeerConnection):
+                conn = task.result()
+                outcomes[k] = ('returned', 'indirect' if conn.incoming else 'direct', conn)
+                returned.append((k, conn))
+            else:
+                outcomes[k] = ('returned-no-connection', repr(task.result())[:200])
+        await asyncio.wait(tasks, timeout=1.0)
+        await simloop.step(20)
+        owned = [cn for _, cn in returned]
+        pending_tickets = any(o[0] == 'never' for o in outcomes)
+        if not pending_tickets:
+            obs.residue += _snapshot(world, network, 'at-completion', None, None, server_link, False, owned=owned)
+
+        if len({id(cn) for cn in owned}) != len(owned):
+            obs.problems.append(('same-connection-returned-to-two-requests', repr(owned)))
+        for k, conn in returned:
+            r = reqs[k]
+            sub = _Observer()
+            _check_connection_fields(sub, conn, r['typ'], network, MULTI_USERS[r['user']])
+            n_init = [req for _, cn, req in inits if cn is conn]
+            if n_init != [True]:
+                sub.problems.append(('initialized-event-count', f'{n_init}'))
+            await _check_usable(world, loop, sub, conn, peers[r['user']], r['typ'], received, loop.time(), salt=k + 1)
+            per_req_problems[k] += sub.problems
+        await asyncio.sleep(HORIZON_S)
+        obs.residue += _snapshot(world, network, 'final', None, None, server_link, True, owned=owned)
+        for k, conn in returned:
+            if conn not in network.peer_connections or conn.state != ConnectionState.CONNECTED:
+                per_req_problems[k].append(('returned-connection-lost', repr(conn)))
+        keepalive_task.cancel()
+        obs.facts['ctp'] = [(m.ticket, m.username, m.typ) for m in world.server.received(M.ConnectToPeer.Request)]
+        obs.facts['gpa'] = [m.username for m in world.server.received(M.GetPeerAddress.Request)]
+        await network.disconnect()
+        del keep
+
+    _, loop_errors = simworld.run_world(main)
+
+    shape = 'same-user' if len({r['user'] for r in reqs}) < len(reqs) else 'different-users'
+    for k, (r, model, o) in enumerate(zip(reqs, models, outcomes)):
+        dk, ik = r['direct']['kind'], r['indirect']['kind']
+        who = f'request {k} ({MULTI_USERS[r["user"]]}, {r["typ"]}, start {r["start_ms"]} ms, direct={dk} ' \
+              f'indirect={ik}) of {len(reqs)} concurrent ({shape}, glue={c["glue"]}, reverse={c["reverse_replies"]}); ' \
+              f'all outcomes={[x[:2] for x in outcomes]} GetPeerAddress seen={obs.facts.get("gpa")} ' \
+              f'ConnectToPeer seen={obs.facts.get("ctp")}'
+        tag = None
+        if o[0] == 'never':
+            res.violate(f'C11/request-never-finished:{c["mode"]}:concurrent', who)
+        elif o[0] == 'returned-no-connection':
+            res.violate(f'C11/returned-no-connection:{c["mode"]}:concurrent', who)
+        elif o[0] == 'cancelled':
+            res.violate(f'C11/unexpected-outcome:{c["mode"]}:cancelled:concurrent', who)
+        elif o[0] == 'raised':
+            if o[3]:
+                tag = 'error'
+            else:
+                res.violate(f'C11/unexpected-exception:{o[1]}@create_peer_connection:{c["mode"]}:concurrent',
+                            f'{o[2]} | {who}')
+        else:
+            tag = o[1]
+        if tag is not None and tag not in model['allowed']:
+            if tag == 'error':
+                res.violate(f'C11/failed-although-path-works:{c["mode"]}:{"+".join(model["works"])}:concurrent', who)
+            elif model['allowed'] == {'error'}:
+                res.violate(f'C11/succeeded-although-no-path:{c["mode"]}:concurrent', who)
+            else:
+                res.violate(f'C11/unexpected-winner:{c["mode"]}:{tag}:concurrent', who)
+        elif tag is not None and done_ms[k] is not None:
+            t_exp = r['start_ms'] + model['t_exp'].get(tag, model['t_ret'])
+            if done_ms[k] > t_exp + LATE_MS:
+                res.violate(f'C11/late-completion:{c["mode"]}:{tag}:concurrent',
+                            f'finished at {done_ms[k]:.1f} ms, modelled {t_exp:.1f} ms | {who}')
+        for suffix, detail in per_req_problems[k]:
+            res.violate(f'C11/{suffix}:concurrent', f'{detail} | {who}')
+        res.label('concurrent-outcome:' + str(tag or o[0]), 'concurrent-direct:' + dk, 'concurrent-indirect:' + ik)
+    for suffix, detail in obs.problems:
+        res.violate(f'C11/{suffix}:concurrent', detail)
+    seen = set()
+    for label, what, detail, _ in obs.residue:
+        kind = f'C11/residue:{what}:concurrent'
+        if kind not in seen:
+            seen.add(kind)
+            res.violate(kind, f'{label}: {detail} | mode={c["mode"]} requests={reqs} '
+                              f'outcomes={[x[:2] for x in outcomes]}')
+    _loop_error_violations(res, loop_errors, 'concurrent')
+    res.nontrivial = True
+    res.label('role:multi', 'mode:' + c['mode'], 'concurrent:%d-requests' % len(reqs), 'concurrent:' + shape,
+              'concurrent:server-replies-' + ('glued' + ('-reversed' if c['reverse_replies'] else '')
+                                              if c['glue'] else 'separate'))
+    if len({r['start_ms'] for r in reqs}) == 1:
+        res.label('concurrent:started-in-the-same-instant')
+    return res
+
+
 def run_case(case) -> CaseResult:
     c = _sanitise(case)
     if c is None:
         return CaseResult()
     if c['role'] == 'reverse':
         return _run_reverse(c)
+    if c['role'] == 'multi':
+        return _run_multi(c)
     return _run_request(c)
 
 
@@ -1183,8 +1471,68 @@ def table():
                     mm = _model(_sanitise(case))
                     case['cancel_ms'] = int(2 + both_ms + (mm['s_i'] or 0))
                 out.append(case)
+    # 4d. the peer's advertised port(s) cannot be connected to (uint32 on the wire: above 65535, or 0): the direct
+    #     attempt cannot even start; both modes x every indirect outcome x looked up / passed by the caller
+    for mode in ('race', 'fallback'):
+        for bad in BAD_PORTS:
+            for prefer in (False, True):
+                for ikind, i_ms in (('pierce', 3), ('pierce', 1200), ('cannot', 3), ('silent', 1), ('sendfail', 1)):
+                    for addr in ('lookup', 'given'):
+                        case = _base_case(mode, 'badport', 1, ikind, i_ms, n)
+                        n += 1
+                        case['direct']['port'] = bad
+                        case['ports'], case['prefer_obf'], case['addr'] = 'clear', prefer, addr
+                        out.append(case)
+    # 4e. two or three requests in flight at once (different users / the same user twice), started in the same
+    #     instant or so that a server message for one coincides with the address reply for another; the server's
+    #     messages of one instant arrive in separate segments, glued in one segment, or glued in reverse order
+    beh = [
+        ({'kind': 'accept', 'ms': 3}, {'kind': 'silent', 'ms': 1}),
+        ({'kind': 'refuse', 'ms': 3}, {'kind': 'pierce', 'ms': 20}),
+        ({'kind': 'refuse', 'ms': 3}, {'kind': 'cannot', 'ms': 20}),
+        ({'kind': 'noaddr', 'ms': 1}, {'kind': 'pierce', 'ms': 20}),
+        ({'kind': 'accept', 'ms': 40}, {'kind': 'cannot', 'ms': 3}),
+        ({'kind': 'badport', 'ms': 1, 'port': 70000}, {'kind': 'pierce', 'ms': 20}),
+    ]
+    for mode in ('fallback', 'race'):
+        for glue, rev in ((False, False), (True, False), (True, True)):
+            for users in ((0, 1), (0, 0), (0, 1, 2), (0, 1, 0)):
+                for a in range(len(beh)):
+                    for b in range(len(beh)):
+                        if len(users) == 3 and (a + b + n) % 3:
+                            n += 1
+                            continue        # a third of the behaviour pairs for three requests
+                        picks = [a, b, (a + b + 1) % len(beh)]
+                        for align in (False, True):
+                            reqs = []
+                            start = 0
+                            for pos, u in enumerate(users):
+                                d, i = beh[picks[pos]]
+                                if align and pos:
+                                    # start so that this request's address reply leaves the server in the instant
+                                    # in which the previous request's indirect outcome (or address reply) does
+                                    prev = {'addr': 'lookup', 'mode': mode, 'cancel_ms': None,
+                                            'direct': dict(beh[picks[pos - 1]][0], port=70000),
+                                            'indirect': dict(beh[picks[pos - 1]][1], cc_ms=2, obf=False, glue=False)}
+                                    pm = _model(prev)
+                                    start = start + int((pm['t_i'] if pm['t_i'] is not None else 2.0) - 2.0)
+                                reqs.append({'user': u, 'typ': 'P' if (n + pos) % 4 else 'D', 'start_ms': max(0, start),
+                                             'direct': dict(d), 'indirect': dict(i, obf=(n + pos) % 5 == 0)})
+                            out.append({'role': 'multi', 'mode': mode, 'glue': glue, 'reverse_replies': rev,
+                                        'requests': reqs, 'ev_hops': n % 2})
+                            n += 1
     # 5. reverse role
     for dkind in REV_DIRECT:
+        if dkind == 'badport':
+            for bad in BAD_PORTS:
+                for ports in PORTS:
+                    for prefer in (False, True):
+                        for typ in TYPES:
+                            out.append({'role': 'reverse', 'typ': typ, 'direct': {'kind': dkind, 'ms': 2, 'port': bad},
+                                        'ports': ports, 'prefer_obf': prefer, 'd_hops': 0, 'ev_hops': len(out) % 3,
+                                        'pre': [{'how': 'out', 'typ': 'P', 'closed': False}] if len(out) % 4 == 0
+                                        else []})
+            continue
         for d_ms in ([2, 700, 9400] if dkind != 'hang' else [1]):
             for ports in REV_PORTS:
                 for prefer in (False, True):
@@ -1201,7 +1549,8 @@ def table():
         for typ in TYPES:
             for dkind in REV_DIRECT:
                 ports, prefer = rev_ports[n % len(rev_ports)]
-                out.append({'role': 'reverse', 'typ': typ, 'direct': {'kind': dkind, 'ms': [2, 40, 700][n % 3]},
+                out.append({'role': 'reverse', 'typ': typ,
+                            'direct': {'kind': dkind, 'ms': [2, 40, 700][n % 3], 'port': BAD_PORTS[n % 4]},
                             'ports': ports, 'prefer_obf': prefer, 'mode': 'race' if n % 2 else 'fallback',
                             'pre': [dict(p) for p in pre], 'd_hops': 0, 'ev_hops': n % 3})
                 n += 1
@@ -1215,6 +1564,7 @@ _fast = st.integers(1, 999)
 _d_ms = st.one_of(_fast, st.integers(1, 60), st.integers(1000, 9500))
 _i_ms = st.one_of(_fast, st.integers(1, 60), st.integers(1000, 59000), st.sampled_from([9990, 10000, 10010]))
 _hops = st.sampled_from([0, 0, 0, 1, 2, 3, 5, 8])
+_bad_ports = st.sampled_from(BAD_PORTS) | st.integers(65536, 2 ** 32 - 1)
 
 
 @st.composite
@@ -1223,8 +1573,9 @@ def request_strategy(draw):
         'role': 'request',
         'mode': draw(st.sampled_from(['race', 'race', 'fallback'])),
         'typ': draw(st.sampled_from(['P', 'P', 'P', 'D', 'F'])),
-        'direct': {'kind': draw(st.sampled_from(['accept', 'accept', 'refuse', 'hang', 'initfail', 'noaddr'])),
-                   'ms': draw(_d_ms)},
+        'direct': {'kind': draw(st.sampled_from(['accept', 'accept', 'refuse', 'hang', 'initfail', 'noaddr',
+                                                 'badport'])),
+                   'ms': draw(_d_ms), 'port': draw(_bad_ports)},
         'indirect': {'kind': draw(st.sampled_from(['pierce', 'pierce', 'cannot', 'silent', 'sendfail', 'both'])),
                      'ms': draw(_i_ms), 'obf': draw(st.booleans()), 'cc_ms': draw(_i_ms),
                      'glue': draw(st.sampled_from([False, False, True]))},
@@ -1254,7 +1605,7 @@ def reverse_strategy(draw):
     return {
         'role': 'reverse',
         'typ': draw(st.sampled_from(TYPES)),
-        'direct': {'kind': draw(st.sampled_from(REV_DIRECT)), 'ms': draw(_d_ms)},
+        'direct': {'kind': draw(st.sampled_from(REV_DIRECT)), 'ms': draw(_d_ms), 'port': draw(_bad_ports)},
         'ports': draw(st.sampled_from(REV_PORTS)),
         'prefer_obf': draw(st.booleans()),
         'd_hops': draw(_hops),
@@ -1266,6 +1617,26 @@ def reverse_strategy(draw):
     }
 
 
+@st.composite
+def multi_strategy(draw):
+    n_req = draw(st.integers(2, 3))
+    reqs = []
+    for _ in range(n_req):
+        reqs.append({
+            'user': draw(st.integers(0, 2)), 'typ': draw(st.sampled_from(['P', 'P', 'D'])),
+            'start_ms': draw(st.sampled_from([0, 0, 0, 1, 2, 3, 5, 20, 22, 25])) if draw(st.booleans())
+            else draw(st.integers(0, 100)),
+            'direct': {'kind': draw(st.sampled_from(['accept', 'accept', 'refuse', 'refuse', 'hang', 'noaddr',
+                                                     'badport'])),
+                       'ms': draw(st.integers(1, 60)), 'port': draw(_bad_ports)},
+            'indirect': {'kind': draw(st.sampled_from(['pierce', 'pierce', 'cannot', 'cannot', 'silent'])),
+                         'ms': draw(st.integers(1, 60)), 'obf': draw(st.booleans())},
+        })
+    return {'role': 'multi', 'mode': draw(st.sampled_from(['fallback', 'race'])), 'requests': reqs,
+            'glue': draw(st.sampled_from([True, True, False])), 'reverse_replies': draw(st.booleans()),
+            'ev_hops': draw(st.sampled_from([0, 0, 1]))}
+
+
 def run_shard(ctx):
     cases = table()
     ctx.extra['enumerated_table_cases'] = len(cases) if ctx.shard == 0 else 0
@@ -1273,6 +1644,7 @@ def run_shard(ctx):
     n = 200 if ctx.tier == 'quick' else 12000
     ctx.explore(request_strategy(), n)
     ctx.explore(reverse_strategy(), max(20, n // 20), salt=1)
+    ctx.explore(multi_strategy(), max(40, n // 10), salt=2)
 
 
 def _req(mode, dkind, d_ms, ikind, i_ms, cancel_ms=None, **kw):
@@ -1341,5 +1713,5 @@ MANIFEST_ENTRY = {
                   'state, usability and what remains registered / open / waiting are compared with the table.',
     'level_note': 'Trusted base: virtual loop, in-memory TCP (1 ms hops), simulated server and scripted peer, the '
                   'outcome model in checks/c11.py (ties within 5 ms accept both orders). Timings inside a cell are '
-                  'representatives plus Hypothesis draws, not all reals; one request per case.',
+                  'representatives plus Hypothesis draws, not all reals; at most three concurrent requests.',
 }
